@@ -47,16 +47,17 @@ def _first_match_exit(fn, enum_name, cmp_names):
 
 def last_match_rule(rep, u):
     n = 0
-    for fname in ("ini_sect_val_find", "ini_sect_val_findi"):
+    for fname in ("ini_sect_val_find", "ini_sect_val_findi", "ini_sect_find", "ini_sect_findi"):
         fn = _need(u, fname)
         rep.functions.add(fname)
-        found, ln = _first_match_exit(fn, "ini_sect_val_enum", {"mem_cmpn", "mem_cmpin"})
+        found, ln = _first_match_exit(fn, "ini_sect_val_enum" if "_val_" in fname else "ini_sect_enum", {"mem_cmpn", "mem_cmpin"})
         if not found:
             raise driver.AnalysisBroken("%s: enumeration loop not found" % fname)
         n += 1
         desc = "%s: the scan continues after a match, so the last (most recently parsed) record of the name is returned" % fname
         (rep.proved if ln is None else rep.violated)("R-LAST", fn, "last-record-wins", desc, "no return inside the loop under the comparison" if ln is None else
-                                                     "returns at the first match (line %s): \"k=old\\nk=new\" looks up as old" % ln, ln)
+                                                     ("returns at the first match (line %s): " % ln) + ("\"k=old\\nk=new\" looks up as old" if "_val_" in fname else
+                                                      "the two-step lookup ini_sect_find + ini_sect_val_find reads the first [main] record while ini_val_set wrote to the last"), ln)
     return n
 
 
@@ -171,3 +172,43 @@ def byte_string_rule(rep, uh, files=("include/utils/mem_utils.h",)):
         else:
             rep.proved("R-BYTESTR", fn, "no-cstring-call", desc, "")
     return n
+
+
+def null_value_rule(rep, u, fname="ini_val_set"):
+    """the empty value is legal and may be given as (NULL, 0) (the argument check refuses NULL only with a non-zero size):
+    the copy of the caller's value is excluded for size 0 (memcpy with a NULL source is undefined behaviour)"""
+    from rules import r_range
+    fn = _need(u, fname)
+    n = 0
+    pn = {p["n"] for p in fn.params}
+    for pos, root, c, ps in fn.calls({"memcpy", "memmove"}):
+        src = core.base_ref(c["args"][1])
+        if src is None or src["n"] != "val" or src.get("dk") != "parm":
+            continue
+        n += 1
+        ln_ = core.strip_casts(c["args"][2])
+        ok, why = r_range.excludes_zero(fn, pos, ln_) if ln_.get("k") in ("ref", "mem") else (False, "")
+        desc = "%s: the copy of the caller's value is not executed for the empty value" % fname
+        (rep.proved if ok else rep.violated)("R-NULLARG", fn, "empty-value-copy", desc, why if ok else
+                                             "memcpy(line->val, val, 0) is reached for the legal empty value (NULL, 0): undefined behaviour", c.get("ln"))
+    return n
+
+
+def gen_empty_rule(rep, u, fname="ini_buf_gen"):
+    """an empty store has size 0 (ini_buf_calc_size): generating into a buffer of exactly that size succeeds with 0 bytes"""
+    fn = _need(u, fname)
+    bad = None
+    for bid in fn.reachable_blocks():
+        cnd = fn.blocks[bid].cond
+        if cnd is None:
+            continue
+        for y, _ in _walk(cnd):
+            if y.get("k") == "bin" and y["op"] == "==":
+                a, b = core.strip_casts(y["x"]), core.strip_casts(y["y"])
+                for v, c_ in ((a, b), (b, a)):
+                    if core.is_ref(v, name="buf_size") and const_val(c_) == 0:
+                        bad = y.get("ln")
+    desc = "%s: a buffer of the size ini_buf_calc_size reports is accepted, also for the empty store (size 0)" % fname
+    (rep.proved if bad is None else rep.violated)("R-AGREE", fn, "empty-store-generates", desc, "" if bad is None else
+                                                  "buf_size 0 is refused with EINVAL at line %s although the calculated size of an empty store is 0" % bad, bad)
+    return 1
